@@ -35,7 +35,11 @@ func c15oProperty(t *rapid.T, st *Stats, owner string) {
 	content := bigBlob(rapid.SampledFrom([]int{1, 10, 300, 40000, 70000}).Draw(t, "size"), 7)
 	pre := rapid.IntRange(0, 2).Draw(t, "chunksBefore")
 	method := rapid.SampledFrom([]string{"PATCH", "PATCH", "PUT"}).Draw(t, "method")
-	how := rapid.SampledFrom([]string{"cancel", "cancel", "evict"}).Draw(t, "how")
+	hows := []string{"cancel", "cancel", "evict"}
+	if owner == "C08" {
+		hows = append(hows, "patch", "patch") // another chunk of the same session lands in the gap (a retry overlapping the request it retries)
+	}
+	how := rapid.SampledFrom(hows).Draw(t, "how")
 	at := rapid.SampledFrom([]int{0, 1, len(content) / 2, len(content) - 1, len(content)}).Draw(t, "at")
 	if at < 0 {
 		at = 0
@@ -69,6 +73,15 @@ func c15oProperty(t *rapid.T, st *Stats, owner string) {
 		case "cancel":
 			d := e.do("DELETE", sessionPath(loc), nil, nil)
 			e.logf("  in the gap: DELETE session -> %d", d.code)
+		case "patch":
+			g := e.do("GET", sessionPath(loc), nil, nil)
+			var from, to int
+			start := 0
+			if n, _ := fmt.Sscanf(g.hdr.Get("Range"), "%d-%d", &from, &to); n == 2 && to >= 0 {
+				start = to + 1
+			}
+			p := e.do("PATCH", g.hdr.Get("Location"), []byte("XYZ"), hdr("Content-Range", fmt.Sprintf("%d-%d", start, start+2)))
+			e.logf("  in the gap: status %s, PATCH 3 bytes at %d -> %d", g.hdr.Get("Range"), start, p.code)
 		case "evict":
 			for i := 0; i < max; i++ {
 				p := e.do("POST", "/v2/"+rn+"/blobs/uploads/", nil, nil)
@@ -144,12 +157,23 @@ func TestC15Overlap(t *testing.T) {
 // ---- the same overlap judged by C08: "ceases to exist after ... cancellation ... further use is refused, no partial
 // content ever becomes a blob and no temporary file remains".
 
-const c08oRule = "TestC08Overlap: the generator of TestC15Overlap (a PATCH or completing PUT whose body is interrupted after a drawn number of bytes by a DELETE of the session or by eviction); oracle after a cancel: the status " +
+const c08oRule = "TestC08Overlap: the generator of TestC15Overlap (a PATCH or completing PUT whose body is interrupted after a drawn number of bytes by a DELETE of the session, by eviction, or by another chunk of the same session sent from the offset the status query reports at that moment); oracle after an overlapping chunk: the Range the overlapped PATCH reports equals the status query right after it; oracle after a cancel: the status " +
 	"query and a further chunk are refused, neither the bytes accepted before the overlapped chunk, nor those plus the delivered part, nor the whole content are retrievable as a blob under their digest unless the PUT was answered 201 " +
 	"(then exactly the whole content is), and the directory store's _uploads holds no file; non-trivial = interrupted strictly inside the body; distinct = hash of the parameters"
 
 func c08Overlap(t *rapid.T, st *Stats, e *env, how, method string, r resp, loc string, all, content []byte, at int, putDig string) {
 	fail := func(key, f string, a ...any) { Fail(t, st, key, fmt.Sprintf(f, a...), e.trace, nil) }
+	if how == "patch" {
+		// how the two bodies end up in the session is the listed finding 26 (requests on one session are not serialised);
+		// what the overlapped request reports must still be what the session holds when it answers
+		if r.code == 202 || r.code == 201 {
+			g := e.do("GET", sessionPath(loc), nil, nil)
+			if r.code == 202 && g.code == 204 && g.hdr.Get("Range") != r.hdr.Get("Range") {
+				fail("chunk-reports-wrong-offset", "the PATCH was answered 202 with Range %q; the status query right after it reports %q (another chunk of the session had been accepted while its body was on the way)", r.hdr.Get("Range"), g.hdr.Get("Range"))
+			}
+		}
+		return
+	}
 	if how != "cancel" {
 		return // which sessions an eviction removes is the cache's choice (C20); C08's bound is checked by TestC08
 	}
